@@ -110,7 +110,7 @@ func (fr *Frame) enterLoop(h *ssa.BasicBlock, st *State, g Term, inPreds []*ssa.
 			continue
 		}
 		c := fr.evalClosure(inv, args, st, g)
-		x.assert(g, fr.oname(fmt.Sprintf("inv-entry/loop%d/%d", k, n)), c, x.posOf(inv.Fn.Pos()), "loop invariant holds on entry")
+		x.assert(g, fr.oname(fmt.Sprintf("inv-entry/loop%d/%s", k, lg.label(n))), c, x.posOf(inv.Fn.Pos()), "loop invariant holds on entry")
 	}
 	// --- havoc
 	st = st.clone()
@@ -191,7 +191,7 @@ func (fr *Frame) backEdge(from, h *ssa.BasicBlock, st *State, g Term) {
 			continue
 		}
 		c := fr.evalClosure(inv, args, st, g)
-		x.assert(g, fr.oname(fmt.Sprintf("inv-step/loop%d/%d", k, n)), c, x.posOf(inv.Fn.Pos()), "loop invariant preserved")
+		x.assert(g, fr.oname(fmt.Sprintf("inv-step/loop%d/%s", k, lg.label(n))), c, x.posOf(inv.Fn.Pos()), "loop invariant preserved")
 	}
 	ds := fr.decAt[h]
 	off := 0
